@@ -6,11 +6,17 @@ package alephium
 //
 // Case lines written here (family `alphwatch`):
 //
-//   conf   <id> mainnet= cl= p0= h= ts= height= now= res=            isEventConfirmed called directly (exact boundaries)
-//   dur    <id> mainnet= transfer= cl= res=                          getConfirmationDuration called directly
+//   conf   <id> mainnet= net= cl= p0= h= ts= height= now= res= clafter=   isEventConfirmed called directly (exact boundaries); net = the shipped
+//                                                                    configuration a watcher was constructed from beforehand ("-" none)
+//   dur    <id> mainnet= net= transfer= cl= res=                     getConfirmationDuration called directly
 //   hconf  <id> bridge= evs=<ev,..> hdrs=<h:ts,..> fwd=<pub,..> err=   handleConfirmedEvents called directly
 //   winit / wbatch / wtick / wheight <id> ...                        one watcher life (real handleEvents [+ real fetchEvents])
 //   reobs  <id> ...                                                  one re-observation request through the real handleObsvRequest
+//
+// winit carries ctor= (the shipped configuration NewAlephiumWatcher built the Watcher from, "-" = struct literal), w= (what the Watcher
+// holds: bridge;governance address;fromGroup;toGroup;isMainnet) and, with a constructor, cfg= (tokenBridge;governance;groupIndex;
+// minimalConsistencyLevel of the file). Kinds of lives: poll, pipe, rst, meta, paths (both delivery paths over the same events under
+// every configuration source), pgf (one failing request inside a multi-page round).
 //
 // ev  = id;bh;tx;idx;contract;conv         conv = x | sender.tc.nonce.seq.cl.payload
 // pub = tx.tsms.nonce.seq.cl.emitterchain.targetchain.emitter.payload
@@ -204,6 +210,9 @@ func (g *fgen) newToken(degrade bool) *tokenTruth {
 	if g.chance(3) {
 		t.decimals = 255
 	}
+	if g.chance(40) { // a real chain has groups 0..3; the contract lives in the group its id ends with - the bridge's own or another one
+		t.token[31] = byte(g.r.Intn(4))
+	}
 	if g.chance(10) { // the contract's own string has a zero byte inside: only NUL padding at the ends is ever stripped
 		if g.chance(50) {
 			t.symbol = nulInside(t.symbol)
@@ -274,16 +283,64 @@ type fcfg struct {
 	tokens  []*tokenTruth
 	foreign []string // other contract addresses
 	usedTi  map[string]bool
+	net     string // "" = the Watcher is a struct literal with generated ids; otherwise it is built by NewAlephiumWatcher from the shipped configuration of that network
 }
 
-func (g *fgen) newCfg() *fcfg {
-	c := &fcfg{mainnet: g.chance(50), bridge: g.bytesN(32), govId: g.bytesN(32), usedTi: map[string]bool{}}
+func (g *fgen) newCfg() *fcfg { return g.newCfgNet("") }
+
+// newCfgNet: net "" = generated contract ids and a random mainnet flag; "mainnet" / "testnet" / "devnet" = what a guardian started
+// with --network <net> gets: the contract ids of configs/alephium/<net>.json and isMainnet = (net == "mainnet").
+func (g *fgen) newCfgNet(net string) *fcfg {
+	c := &fcfg{usedTi: map[string]bool{}, net: net}
+	if net == "" {
+		c.mainnet, c.bridge, c.govId = g.chance(50), g.bytesN(32), g.bytesN(32)
+	} else {
+		sc := shipped(net)
+		c.mainnet, c.bridge, c.govId = net == "mainnet", sc.bridge, sc.govId
+	}
 	c.gov = contractAddressOf(c.govId)
 	for i := 0; i < 3; i++ {
 		c.tokens = append(c.tokens, g.newToken(g.chance(35)))
 	}
 	c.foreign = []string{contractAddressOf(g.bytesN(32)), contractAddressOf(c.bridge)}
 	return c
+}
+
+func (c *fcfg) ctor() string {
+	if c.net == "" {
+		return "-"
+	}
+	return c.net
+}
+
+// buildWatcher: the Watcher of a case. With a shipped configuration it comes out of the production constructor, called the way
+// cmd/guardiand/node.go calls it (the fake node then serves the group the configuration names); otherwise it is a struct literal.
+func (c *fcfg) buildWatcher(n *fakeNode, msgC chan *common.MessagePublication, obsC chan *gossipv1.ObservationRequest) *Watcher {
+	if c.net == "" {
+		var bridge Byte32
+		copy(bridge[:], c.bridge)
+		return &Watcher{
+			url: n.srv.URL, governanceContractAddress: c.gov, tokenBridgeContractId: bridge,
+			chainIndex: &ChainIndex{FromGroup: n.group, ToGroup: n.group}, msgChan: msgC, obsvReqC: obsC,
+			blockPollerEnabled: &atomic.Bool{}, pollIntervalMs: 1, client: NewClient(n.srv.URL, n.key, 10), isMainnet: c.mainnet,
+		}
+	}
+	sc := shipped(c.net)
+	n.mu.Lock()
+	n.group = int32(sc.cc.GroupIndex)
+	n.mu.Unlock()
+	w, err := NewAlephiumWatcher(n.srv.URL, n.key, sc.cc, common.ReadinessAlephiumSyncing, msgC, 1, obsC, c.net == "mainnet")
+	if err != nil {
+		panic("verif harness: NewAlephiumWatcher rejects " + sc.file + ": " + err.Error())
+	}
+	return w
+}
+
+// constructOnly: what a guardian of that network does before its watcher sees anything - it builds the watcher from the shipped
+// configuration. The value is dropped; whatever the constructor leaves behind in the package is in force for what follows.
+func (g *fgen) constructOnly(net string) {
+	c := &fcfg{net: net}
+	c.buildWatcher(g.node, make(chan *common.MessagePublication, 1), make(chan *gossipv1.ObservationRequest))
 }
 
 func (c *fcfg) installTokens(n *fakeNode) {
@@ -339,47 +396,74 @@ func (g *fgen) randMsg(c *fcfg) msgSpec {
 // ---------------------------------------------------------------------------------------------
 // direct calls: isEventConfirmed / getConfirmationDuration / handleConfirmedEvents
 
+// genConf: the two finality predicates, called directly. A quarter of the cases each run after a guardian of one network has built
+// its watcher from the shipped configuration (net=), with the network flag node.go derives from it; the others before any constructor
+// call, with a random flag.
 func (g *fgen) genConf(n int) {
 	logger := zap.NewNop()
-	for i := 0; i < n; i++ {
-		mainnet := g.chance(50)
-		cl := g.cl()
-		p0 := g.pick(0, 1, 1, 1, 2, 3, -1) // first payload byte, -1 = empty payload
-		var payload []byte
-		if p0 >= 0 {
-			payload = []byte{byte(p0), 7}
+	for _, net := range append([]string{""}, shippedNets...) {
+		cnt := n / 2
+		if net != "" {
+			cnt = n / 6
+			g.constructOnly(net)
 		}
-		h := int32(g.pick(0, 1, 1000, 5_000_000, math.MaxInt32-300, math.MaxInt32-int(cl), math.MaxInt32-int(cl)+1, math.MaxInt32, -5))
-		ts := int64(1_700_000_000_000) + int64(g.r.Intn(1000))
-		if g.chance(5) {
-			ts = int64(g.pick(0, -1000))
+		netS := net
+		if netS == "" {
+			netS = "-"
 		}
-		if g.chance(3) {
-			ts = math.MaxInt64 - int64(g.r.Intn(5_000_000))
+		for i := 0; i < cnt; i++ {
+			mainnet := g.chance(50)
+			if net != "" {
+				mainnet = net == "mainnet"
+			}
+			cl := g.cl()
+			p0 := g.pick(0, 1, 1, 1, 2, 3, -1) // first payload byte, -1 = empty payload
+			var payload []byte
+			if p0 >= 0 {
+				payload = []byte{byte(p0), 7}
+			}
+			h := int32(g.pick(0, 1, 1000, 5_000_000, math.MaxInt32-300, math.MaxInt32-int(cl), math.MaxInt32-int(cl)+1, math.MaxInt32, -5))
+			ts := int64(1_700_000_000_000) + int64(g.r.Intn(1000))
+			if g.chance(5) {
+				ts = int64(g.pick(0, -1000))
+			}
+			if g.chance(3) {
+				ts = math.MaxInt64 - int64(g.r.Intn(5_000_000))
+			}
+			eff := int64(cl)
+			if mainnet && p0 == 1 && cl < 205 {
+				eff = 205
+			}
+			// height and now around the exact boundaries of the code's two comparisons and of the statement's floors - and of every
+			// level a shipped configuration mentions
+			height := int32(int64(h) + int64(cl) + int64(g.pick(-2, -1, 0, 0, 1, 2, 300)))
+			if g.chance(10) {
+				height = int32(g.pick(0, int(h), math.MaxInt32, math.MinInt32))
+			}
+			lv := g.pick(int(cl), int(eff), 205)
+			if g.chance(25) {
+				sc := shipped(shippedNets[g.r.Intn(len(shippedNets))])
+				lv = sc.levels[g.r.Intn(len(sc.levels))]
+			}
+			now := ts + int64(lv)*BlockTimeMs + int64(g.pick(-16000, -1, 0, 0, 1, 16000, 1<<40))
+			ev := &UnconfirmedEvent{ContractEvent: &sdk.ContractEvent{TxId: "00"}, msg: &WormholeMessage{consistencyLevel: cl, payload: payload}}
+			hdr := &sdk.BlockHeaderEntry{Height: h, Timestamp: ts}
+			res := isEventConfirmed(logger, ev, hdr, now, height, mainnet)
+			g.emit("conf %s mainnet=%s net=%s cl=%d p0=%d h=%d ts=%d height=%d now=%d res=%s clafter=%d", g.id("conf"), fb(mainnet), netS, cl, p0, h, ts, height, now, fb(res),
+				ev.msg.consistencyLevel)
 		}
-		eff := int64(cl)
-		if mainnet && p0 == 1 && cl < 205 {
-			eff = 205
-		}
-		// height and now around the exact boundaries of the code's two comparisons and of the statement's floors
-		height := int32(int64(h) + int64(cl) + int64(g.pick(-2, -1, 0, 0, 1, 2, 300)))
-		if g.chance(10) {
-			height = int32(g.pick(0, int(h), math.MaxInt32, math.MinInt32))
-		}
-		now := ts + int64(g.pick(int(cl), int(eff), 205))*BlockTimeMs + int64(g.pick(-16000, -1, 0, 0, 1, 16000, 1<<40))
-		ev := &UnconfirmedEvent{ContractEvent: &sdk.ContractEvent{TxId: "00"}, msg: &WormholeMessage{consistencyLevel: cl, payload: payload}}
-		hdr := &sdk.BlockHeaderEntry{Height: h, Timestamp: ts}
-		res := isEventConfirmed(logger, ev, hdr, now, height, mainnet)
-		g.emit("conf %s mainnet=%s cl=%d p0=%d h=%d ts=%d height=%d now=%d res=%s", g.id("conf"), fb(mainnet), cl, p0, h, ts, height, now, fb(res))
-	}
-	for _, mainnet := range []bool{false, true} {
-		for _, transfer := range []bool{false, true} {
-			for cl := 0; cl < 256; cl++ {
-				if g.tier != "thorough" && cl > 3 && cl < 200 && cl%17 != 0 {
-					continue
+		for _, mainnet := range []bool{false, true} {
+			if net != "" && mainnet != (net == "mainnet") {
+				continue
+			}
+			for _, transfer := range []bool{false, true} {
+				for cl := 0; cl < 256; cl++ {
+					if g.tier != "thorough" && cl > 3 && cl < 200 && cl%17 != 0 {
+						continue
+					}
+					res := getConfirmationDuration(mainnet, transfer, uint8(cl))
+					g.emit("dur %s mainnet=%s net=%s transfer=%s cl=%d res=%d", g.id("dur"), fb(mainnet), netS, fb(transfer), cl, res)
 				}
-				res := getConfirmationDuration(mainnet, transfer, uint8(cl))
-				g.emit("dur %s mainnet=%s transfer=%s cl=%d res=%d", g.id("dur"), fb(mainnet), fb(transfer), cl, res)
 			}
 		}
 	}
@@ -394,16 +478,44 @@ func (g *fgen) genHconf(n int) {
 		msgC := make(chan *common.MessagePublication, 64)
 		w := &Watcher{tokenBridgeContractId: bridge, msgChan: msgC, isMainnet: c.mainnet}
 		k := g.pick(0, 1, 2, 3, 5, 8)
+		// every eighth case is a batch as one height tick confirms it when several blocks become final together: events of
+		// different blocks (each block its own timestamp), handed over in the pending map's order - i.e. in any order relative to
+		// their sequence numbers - with events of foreign senders anywhere in between
+		ordered := i%8 == 0
+		var seqs []uint64
+		if ordered {
+			k = g.pick(2, 3, 5, 8)
+			base := uint64(g.r.Intn(1 << 20))
+			for j := 0; j < k; j++ {
+				seqs = append(seqs, base+uint64(j))
+			}
+			switch (i / 8) % 3 {
+			case 0: // strictly descending
+				for a, b := 0, k-1; a < b; a, b = a+1, b-1 {
+					seqs[a], seqs[b] = seqs[b], seqs[a]
+				}
+			case 1: // ascending (a foreign sender goes first, see below)
+			default:
+				g.r.Shuffle(k, func(a, b int) { seqs[a], seqs[b] = seqs[b], seqs[a] })
+			}
+		}
 		var evs []*evSpec
 		var hdrs []string
 		var confirmed []*ConfirmedEvent
 		for j := 0; j < k; j++ {
 			e := &evSpec{id: j, bh: g.hash(), tx: g.hash(), m: g.randMsg(c)}
-			if g.chance(8) {
+			if g.chance(8) && !ordered {
 				e.idx = int32(g.pick(1, -1, 2))
 			}
-			e.buildFields()
 			h := &sdk.BlockHeaderEntry{Hash: e.bh, Height: int32(g.r.Intn(1000)), Timestamp: int64(g.pick(0, 999, 1000, 1_700_000_000_123, -1, -1001))}
+			if ordered {
+				e.m.seq, e.m.sender = seqs[j], c.bridge
+				if ((i/8)%3 == 1 && j == 0) || ((i/8)%3 == 2 && j == k/2) {
+					e.m.sender = g.bytesN(32)
+				}
+				h.Timestamp = 1_700_000_000_000 + int64(j)*16_000 + int64(g.r.Intn(16_000))
+			}
+			e.buildFields()
 			evs = append(evs, e)
 			hdrs = append(hdrs, fmt.Sprintf("%d:%d", h.Height, h.Timestamp))
 			confirmed = append(confirmed, &ConfirmedEvent{header: h, event: e.toUnconfirmed()})
@@ -470,21 +582,24 @@ type watchRun struct {
 	lives      int // incarnations started so far (restart scenarios: the loops are started again on the same Watcher value)
 }
 
+// newWatchRun: about a third of the lives run a Watcher built by the production constructor from one of the shipped configurations.
 func (g *fgen) newWatchRun(kind string, fetch bool, viaFH bool) *watchRun {
+	net := ""
+	if g.chance(30) {
+		net = shippedNets[g.r.Intn(len(shippedNets))]
+	}
+	return g.newWatchRunNet(kind, fetch, viaFH, net)
+}
+
+func (g *fgen) newWatchRunNet(kind string, fetch bool, viaFH bool, net string) *watchRun {
 	n := g.node
 	n.reset()
-	c := g.newCfg()
+	c := g.newCfgNet(net)
 	n.gov = c.gov
 	c.installTokens(n)
-	var bridge Byte32
-	copy(bridge[:], c.bridge)
 	r := &watchRun{g: g, id: g.id(kind), c: c, fetch: fetch, viaFH: viaFH, base: time.Now().UnixMilli(),
 		msgC: make(chan *common.MessagePublication, 4096), obsC: make(chan *gossipv1.ObservationRequest)}
-	r.w = &Watcher{
-		url: n.srv.URL, governanceContractAddress: c.gov, tokenBridgeContractId: bridge,
-		chainIndex: &ChainIndex{FromGroup: n.group, ToGroup: n.group}, msgChan: r.msgC, obsvReqC: r.obsC,
-		blockPollerEnabled: &atomic.Bool{}, pollIntervalMs: 1, client: NewClient(n.srv.URL, n.key, 10), isMainnet: c.mainnet,
-	}
+	r.w = c.buildWatcher(n, r.msgC, r.obsC)
 	return r
 }
 
@@ -598,7 +713,14 @@ func (r *watchRun) launch(count0 string) string {
 
 // start: the first incarnation of this life.
 func (r *watchRun) start(count0 string) {
-	line := fmt.Sprintf("winit %s mainnet=%s bridge=%s gov=%s fetch=%s fh=%s ti=%s", r.id, fb(r.c.mainnet), hex.EncodeToString(r.c.bridge), r.c.gov, fb(r.fetch), fb(r.viaFH), r.c.renderTiAddr())
+	line := fmt.Sprintf("winit %s mainnet=%s bridge=%s gov=%s fetch=%s fh=%s ctor=%s ti=%s", r.id, fb(r.c.mainnet), hex.EncodeToString(r.c.bridge), r.c.gov, fb(r.fetch), fb(r.viaFH), r.c.ctor(), r.c.renderTiAddr())
+	// what the Watcher of this life holds, and - when the production constructor made it - what the configuration said
+	line += fmt.Sprintf(" w=%s;%s;%d;%d;%s", hex.EncodeToString(r.w.tokenBridgeContractId[:]), r.w.governanceContractAddress, r.w.chainIndex.FromGroup,
+		r.w.chainIndex.ToGroup, fb(r.w.isMainnet))
+	if r.c.net != "" {
+		sc := shipped(r.c.net)
+		line += fmt.Sprintf(" cfg=%s;%s;%d;%d", sc.cc.Contracts.TokenBridge, sc.cc.Contracts.Governance, sc.cc.GroupIndex, sc.minCL)
+	}
 	line += r.launch(count0)
 	r.g.emit("%s", line)
 }
@@ -1302,15 +1424,16 @@ func (g *fgen) genRestarts(rounds int) {
 func (g *fgen) reobsCase() {
 	n := g.node
 	n.reset()
-	c := g.newCfg()
+	net := ""
+	if g.chance(30) {
+		net = shippedNets[g.r.Intn(len(shippedNets))]
+	}
+	c := g.newCfgNet(net)
 	n.gov = c.gov
 	c.installTokens(n)
-	var bridge Byte32
-	copy(bridge[:], c.bridge)
 	msgC := make(chan *common.MessagePublication, 256)
 	obsC := make(chan *gossipv1.ObservationRequest)
-	w := &Watcher{url: n.srv.URL, governanceContractAddress: c.gov, tokenBridgeContractId: bridge, chainIndex: &ChainIndex{FromGroup: n.group, ToGroup: n.group},
-		msgChan: msgC, obsvReqC: obsC, blockPollerEnabled: &atomic.Bool{}, pollIntervalMs: 1, client: NewClient(n.srv.URL, n.key, 10), isMainnet: c.mainnet}
+	w := c.buildWatcher(n, msgC, obsC)
 	base := time.Now().UnixMilli()
 	id := g.id("reobs")
 
@@ -1430,8 +1553,8 @@ func (g *fgen) reobsCase() {
 	if !n.errs["height"] {
 		hs = fmt.Sprint(height)
 	}
-	line := fmt.Sprintf("mainnet=%s bridge=%s gov=%s chain=%d hash=%s status=%s evs=%s hdr=%s,%s main=%s,%s ti=%s height=%s",
-		fb(c.mainnet), hex.EncodeToString(c.bridge), c.gov, chain, fhex(reqHash), status, evtab, tab(bh1, h1), tab(bh2, h2), mtab(bh1), mtab(bh2),
+	line := fmt.Sprintf("mainnet=%s ctor=%s bridge=%s gov=%s chain=%d hash=%s status=%s evs=%s hdr=%s,%s main=%s,%s ti=%s height=%s",
+		fb(c.mainnet), c.ctor(), hex.EncodeToString(c.bridge), c.gov, chain, fhex(reqHash), status, evtab, tab(bh1, h1), tab(bh2, h2), mtab(bh1), mtab(bh2),
 		c.renderTiAddr(), hs)
 	n.mu.Unlock()
 
@@ -1457,6 +1580,238 @@ func (g *fgen) reobsCase() {
 		cancel()
 	}
 	g.emit("reobs %s %s now=%d reqs=%s fwd=%s res=%s", id, line, now, fjoin(n.takeLog(), ","), fjoin(drainPubs(msgC), ","), res)
+}
+
+// ---------------------------------------------------------------------------------------------
+// both delivery paths over the same events, under every configuration a guardian can be started with
+//
+// One life per configuration source - a struct literal (mainnet flag either way) and the Watcher the production constructor builds
+// from configs/alephium/{mainnet,testnet,devnet}.json - serves the polling path and re-observation requests for the same events:
+// token transfers with consistency levels around every level a shipped configuration mentions (and 205), an attestation, another
+// payload, a foreign sender; each transfer once per gap between two candidate floors (block age >= 12 minutes away from
+// level x 16 s for each candidate level: the message's own, 205, and every small integer found in the shipped files) and once
+// beyond all of them. What each path hands to the signer is judged against the event (`...-forwarded-altered`), against the
+// statement's floor (`...-mainnet-transfer-floor`), and the publications of the two paths for one event against each other.
+
+// floorAges: block ages (ms) between and beyond the candidate floors of a message with consistency level cl.
+func floorAges(cl uint8) []int64 {
+	set := map[int64]bool{int64(cl) * BlockTimeMs: true, 205 * BlockTimeMs: true}
+	for _, net := range shippedNets {
+		for _, lv := range shipped(net).levels {
+			set[int64(lv)*BlockTimeMs] = true
+		}
+	}
+	var ds []int64
+	for d := range set {
+		ds = append(ds, d)
+	}
+	sort.Slice(ds, func(a, b int) bool { return ds[a] < ds[b] })
+	var ages []int64
+	for i := 0; i+1 < len(ds); i++ {
+		if ds[i+1]-ds[i] >= 24*fMinute {
+			ages = append(ages, (ds[i]+ds[i+1])/2)
+		}
+	}
+	return append(ages, ds[len(ds)-1]+15*fMinute)
+}
+
+// agedBlock: a canonical block whose timestamp lies `age` ms before the start of the case.
+func (r *watchRun) agedBlock(age int64) *fblock {
+	g, n := r.g, r.g.node
+	b := &fblock{bh: g.hash(), height: int32(100 + g.r.Intn(50)), ts: r.base - age}
+	r.blocks = append(r.blocks, b)
+	n.mu.Lock()
+	n.main[b.bh] = true
+	n.hdr[b.bh] = fnHeader{b.height, b.ts}
+	n.mu.Unlock()
+	return b
+}
+
+func (g *fgen) pathsCase(net string, fetch bool) {
+	r := g.newWatchRunNet("paths", fetch, false, net)
+	r.reobs = true
+	n := g.node
+	// one token whose contract answers healthily, for the attestation
+	tok := g.newToken(false)
+	r.c.tokens[0] = tok
+	n.mu.Lock()
+	n.ti = map[string]tiAnswer{}
+	n.mu.Unlock()
+	r.c.installTokens(n)
+	r.start("")
+	h := int32(1000)
+	n.mu.Lock()
+	n.height = h
+	n.mu.Unlock()
+	var levels []int
+	for _, nt := range shippedNets {
+		levels = append(levels, shipped(nt).levels...)
+	}
+	cls := []uint8{uint8(g.pick(0, 1, 2, 3)), uint8(g.r.Intn(256))}
+	for j := 0; j < 3; j++ { // around the levels the shipped files mention, and around 205
+		lv := g.pick(append(levels, 205, 205)...) + g.pick(-1, 0, 1)
+		if lv < 0 {
+			lv = 0
+		}
+		if lv > 255 {
+			lv = 255
+		}
+		cls = append(cls, uint8(lv))
+	}
+	var evs []*evSpec
+	mk := func(m msgSpec, age int64) {
+		e := r.mkEvent(r.agedBlock(age), m)
+		r.registerTx(e, r.c.gov)
+		evs = append(evs, e)
+	}
+	for _, cl := range cls {
+		for _, age := range floorAges(cl) {
+			mk(msgSpec{sender: r.c.bridge, tc: uint16(g.pick(0, 2, 4, 65535)), seq: g.r.Uint64() >> uint(g.r.Intn(64)), nonce: g.r.Uint32(), cl: cl,
+				payload: append([]byte{1}, g.bytesN(g.pick(32, 132))...)}, age)
+		}
+	}
+	far := 3*60*fMinute + int64(g.r.Intn(86_400_000))
+	mk(msgSpec{sender: r.c.bridge, tc: 0, seq: uint64(g.r.Intn(1000)), nonce: g.r.Uint32(), cl: g.cl(), payload: g.attestFor(tok, "ok")}, far)
+	mk(msgSpec{sender: r.c.bridge, tc: 2, seq: uint64(g.r.Intn(1000)), nonce: g.r.Uint32(), cl: g.cl(), payload: append([]byte{byte(g.pick(0, 3, 255))}, g.bytesN(g.r.Intn(40))...)}, far)
+	mk(msgSpec{sender: r.c.bridge, tc: 2, seq: uint64(g.r.Intn(1000)), nonce: g.r.Uint32(), cl: g.cl(), payload: nil}, far)
+	mk(msgSpec{sender: g.bytesN(32), tc: 2, seq: uint64(g.r.Intn(1000)), nonce: g.r.Uint32(), cl: uint8(g.r.Intn(4)), payload: append([]byte{1}, g.bytesN(132)...)}, far)
+	g.r.Shuffle(len(evs), func(a, b int) { evs[a], evs[b] = evs[b], evs[a] })
+	for i, e := range evs { // log positions follow the order of the log
+		e.id = i
+	}
+	n.mu.Lock()
+	for _, e := range evs { // registerTx copied the event before its position was final
+		for _, c := range n.txev[e.tx] {
+			c.id = e.id
+		}
+	}
+	n.mu.Unlock()
+	if g.chance(50) { // a re-observation request may reach the watcher before the polling path has seen the event
+		for _, e := range evs {
+			if !r.exited {
+				r.reobserve(e.tx)
+			}
+		}
+	}
+	if fetch {
+		if !r.exited {
+			r.fetchTickEvs(tickScript{newVisible: len(evs), pageSize: g.pick(1, 3, 100), pageErr: -1}, evs)
+		}
+	} else {
+		r.batch(evs)
+	}
+	if !r.exited {
+		r.heightTick(h, false)
+	}
+	for _, e := range evs {
+		if !r.exited {
+			r.reobserve(e.tx)
+		}
+	}
+	if fetch && !r.exited {
+		r.fetchTickEvs(tickScript{pageSize: 100, pageErr: -1}, nil)
+	}
+	for s := 0; s < 2 && !r.exited; s++ {
+		r.settle()
+		h++
+		r.heightTick(h, true)
+	}
+	r.stop()
+}
+
+func (g *fgen) genPaths(rounds int) {
+	for i := 0; i < rounds; i++ {
+		for _, net := range append([]string{"", ""}, shippedNets...) {
+			g.pathsCase(net, g.chance(50))
+		}
+	}
+}
+
+// ---------------------------------------------------------------------------------------------
+// page-failure histories: one request of a multi-page round fails once (every page position in turn, or the count poll), then
+// the node is healthy again. Whether the watcher ends (and is started again by the supervisor) or carries on is its business;
+// every message the node served in a page answer of a watcher that keeps running is owed to the signer, exactly once.
+
+func (g *fgen) pgfCase(pages, pos, pageSize int) {
+	r := g.newWatchRun("pgf", true, g.chance(50))
+	n := g.node
+	pre := r.newEvents(g.pick(0, 0, 2), true, false)
+	n.mu.Lock()
+	n.events = append(n.events, pre...)
+	n.visible = len(n.events)
+	n.count = n.visible
+	n.mu.Unlock()
+	r.start("")
+	h := int32(1000)
+	tickQuick := func(k int) {
+		if !r.exited {
+			r.fetchTickEvs(tickScript{newVisible: k, pageSize: g.pick(1, 2, 3, 100), pageErr: -1}, r.quickEvents(k))
+		}
+	}
+	height := func(drain bool) {
+		if !r.exited {
+			h++
+			r.heightTick(h, drain)
+		}
+	}
+	if g.chance(50) { // a healthy round first
+		tickQuick(1 + g.r.Intn(2))
+		height(false)
+	}
+	k := pages*pageSize - g.r.Intn(pageSize) // the last page may be short
+	if !r.exited {
+		sc := tickScript{newVisible: k, pageSize: pageSize, pageErr: pos}
+		if pos < 0 {
+			sc.pageErr, sc.countErr = -1, true
+		}
+		total := k
+		if g.chance(25) { // the log grows while the round is under way
+			sc.growAfter = make([]int, 1+g.r.Intn(pages))
+			sc.growAfter[len(sc.growAfter)-1] = 1 + g.r.Intn(2)
+			total += sc.growAfter[len(sc.growAfter)-1]
+		}
+		r.fetchTickEvs(sc, r.quickEvents(total))
+	}
+	if r.exited && !r.panicked { // Run returned the error; the supervisor starts it again on the same Watcher
+		r.restart("error", "", r.quickEvents(g.pick(0, 0, 1)))
+	}
+	// the node is healthy from now on
+	r.settle()
+	for round := 0; round < 1+g.r.Intn(2); round++ {
+		tickQuick(g.r.Intn(3))
+		height(false)
+	}
+	if !r.exited {
+		r.fetchTickEvs(tickScript{pageSize: 100, pageErr: -1}, nil)
+	}
+	for s := 0; s < 2 && !r.exited; s++ {
+		r.settle()
+		height(true)
+	}
+	r.stop()
+}
+
+func (g *fgen) genPageFail(rounds int) {
+	for i := 0; i < rounds; i++ {
+		for _, pageSize := range []int{1, 2} {
+			for pages := 2; pages <= 4; pages++ {
+				for pos := -1; pos < pages; pos++ {
+					g.pgfCase(pages, pos, pageSize)
+				}
+			}
+		}
+	}
+}
+
+// genC04: what reaches the signer for one on-chain event must not depend on the path it took or the configuration of the guardian
+// (C04: "every honest guardian observing the same message signs the same 32 bytes").
+func (g *fgen) genC04() {
+	nHconf, nPaths := 120, 2
+	if g.tier == "thorough" {
+		nHconf, nPaths = 1200, 20
+	}
+	g.genHconf(nHconf)
+	g.genPaths(nPaths)
 }
 
 // genC08: finality predicates with exact boundaries, the confirmed-event handler, the event loop with batches handed in
@@ -1490,4 +1845,6 @@ func (g *fgen) genC08() {
 	}
 	g.genRestarts(nRst)
 	g.genMeta(nMeta)
+	g.genPaths(nMeta * 2)
+	g.genPageFail(nMeta)
 }
